@@ -203,7 +203,7 @@ def run_flow(case):
             "crash": [e[0] + ": " + e[1] for e in w.errors],
             "n_deliveries": len(deliveries),
             "proto_err": any("HTTP/1 protocol error" in e for e in seen["err"]),
-            "trailer": trailer_seen(lay, ctx, resp, w, any("HTTP/1 protocol error" in e for e in seen["err"])),
+            "trailer": trailer_seen(lay, ctx, resp, w, any("HTTP/1 protocol error" in e and "peer closed connection" not in e for e in seen["err"])),
         }
 
 
